@@ -17,6 +17,8 @@ N_THOROUGH = 2000000
 WALL_QUICK = 100
 WALL_THOROUGH = 1500
 
+REACH_FOCUS = {'ebb_motion': None, 'ebb3_motion': None, 'ebb3_serial': ['command', 'query', 'var_write', 'var_read', 'query_statusbyte']}
+
 RULE = ("Scenario = one legacy-syntax board with an open port + one firmware-3 board with a connected EBBMotionWrap "
         "object + 3..30 helper requests, each issued through the legacy helper and/or the EBB3 method with the same "
         "arguments (integers over firmware ranges, weight on 0, negatives, chunk boundaries 749..751/1499..1501, "
@@ -440,6 +442,21 @@ def board_effect(fn, b, hist, i, port):
             want.append(g('pin'))
         if last != want:
             return 'board executed SP %r, request was %r' % (last, want)
+    elif fn in ('motors_enable', 'sendEnableMotors', 'sendDisableMotors', 'motors_disable'):
+        # what the board ended up with: the text "documented for" enabling only motor 2 depends on the
+        # resolution the board already uses, which only the board knows
+        if fn == 'motors_enable':
+            c1, c2 = clamp(g('resolution_1')), clamp(g('resolution_2'))
+        elif fn == 'sendEnableMotors':
+            c1 = c2 = clamp(g('res'))
+        else:
+            c1 = c2 = 0
+        if (after['en1'], after['en2']) != (1 if c1 else 0, 1 if c2 else 0):
+            return 'board has en1=%d en2=%d after a request for resolutions (%d,%d)' % (after['en1'], after['en2'], c1, c2)
+        want_mode = c1 or c2
+        if want_mode and after['mode'] != want_mode:
+            return ('board microstep mode %d after a request for resolutions (%d,%d) from prior (en1=%d,en2=%d,mode=%d)'
+                    % (after['mode'], c1, c2, before['en1'], before['en2'], before['mode']))
     elif fn == 'doABMove':
         d1 = after['steps'][0] - before['steps'][0]
         d2 = after['steps'][1] - before['steps'][1]
